@@ -30,7 +30,7 @@ def op_step_budget(op, world):
         feet = abs(gen.to_feet(spec))
     fall = abs(cfg.get("cMaximumDrop", -15000.0))
     iters = 1 if k == "fire" else (int(cfg.get("cMaxIterations", 20)) + 2)
-    return int(iters * (64 * (feet + fall + 100.0) / calc_step + 20000))
+    return min(1_500_000, int(iters * (64 * (feet + fall + 100.0) / calc_step + 20000)))
 
 
 class Snapshots:
